@@ -267,10 +267,14 @@ class _Tokenizer:
                 # end of the last token of previous line
                 prev_end_pos = SrcPos(src_name, line_id, 1)
             col = 0
-            while col < len(text_line):
+            # an open 'span' token takes (the rest of) every line, even if there
+            # is nothing on it: an empty line is a part of the token's value
+            span_line_pending = cur_span_symbol is not None
+            while col < len(text_line) or span_line_pending:
                 if cur_span_symbol is not None:
                     # we are inside 'span' token (for example inside
                     # multi-line comment)
+                    span_line_pending = False
                     match = span_body_matcher.match(text_line, col)
                     if match is None:
                         # end of the span is not found on this line of text
@@ -310,6 +314,7 @@ class _Tokenizer:
                         cur_span_symbol = token_name
                         cur_span_start_text = text_line
                         cur_span_lines = []
+                        span_line_pending = True
                     else:
                         token_name = self.synonyms.get(token_name, token_name)
                         keyword_token = self.keywords.get((token_name, value))
